@@ -301,7 +301,7 @@ def verify(dm, c, df, order):
         # a sequence of further batches; categorical columns only declare what occurs in each batch
         n_ = len(df)
         has_cat = any(isinstance(df[c_].dtype, pd.CategoricalDtype) for c_ in df.columns)
-        for lo, hi in ((0, n_ // 2), (n_ // 2, n_), (1, n_ // 2 + 1)) if has_cat and n_ <= 20 else ():
+        for lo, hi in ((0, 2), (2, 4), (4, 6), (1, 3), (0, n_)) if has_cat and n_ <= 20 else ():
             nd = df.iloc[lo:hi].reset_index(drop=True)
             for col in nd.columns:
                 if isinstance(nd[col].dtype, pd.CategoricalDtype):
